@@ -432,7 +432,11 @@ class Unit:
             # (a metric_name of the wrong type reads as "": the family lunar_ is shared by every such engine of the process and
             #  cannot be attributed to this one - its exposition is not judged)
             ms = [r for r in body if r["ev"] == "metrics"]
-            out.append({"ev": "shown", "samples": delta_samples(self.family(ms[0]["samples"]), self.family(ms[1]["samples"])), "uid": self.uid})
+            smp = delta_samples(self.family(ms[0]["samples"]), self.family(ms[1]["samples"]))
+            mt = self.par.get("metric_type") if isinstance(self.par, dict) else None
+            if mt is None or (mt["t"] == "str" and S(mt["s"]) in ("", "counter", "up_down_counter")):
+                smp = [x for x in smp if x["v"] != 0]       # (a series that only counted 0 is not told from an absent one, see ProcMetricsP!Silent)
+            out.append({"ev": "shown", "samples": smp, "uid": self.uid})
         return out
 
 
@@ -673,7 +677,7 @@ def rand_filter_case(rng):
             if y < 0.45:
                 par["header"] = VStr(rng.choice(["x-env=prod", "X-Env=Prod", "x-env=staging", "x-group", "x-env=a=b", "authorization=Bearer t0k"]))
             elif y < 0.85:
-                par["headers"] = VSMap(rng.sample([("x-env", "prod"), ("x-group", "blue"), ("X-Tenant", "acme"), ("x-env", "staging")], rng.choice([1, 2])))
+                par["headers"] = VSMap(rng.sample([("x-env", rng.choice(["prod", "staging"])), ("x-group", "blue"), ("X-Tenant", "acme")], rng.choice([1, 2])))
             else:
                 par["header"] = VStr("x-env=prod")
                 par["headers"] = VSMap([("x-group", "blue")])
